@@ -183,6 +183,7 @@ class Harness:
                 ops += [['move', k, d] for d in self._menu['deltas']]
                 ops += [['move_to', k, t] for t in self._menu['targets']]
                 ops.append(['remove', k])
+                ops.append(['remove_obj', k])
                 # placing an agent that is already in the world again (elsewhere): rejected, nothing moves
                 ops += [['readd', k, t] for t in self._menu['targets'][:3]]
         return ops
@@ -293,6 +294,26 @@ class Harness:
                 w.last = (kind, False, w.pos[k])
             else:
                 raise Violation(f'placing an agent that is already in the world again at {p} was accepted')
+        elif kind == 'remove_obj':
+            # the agent OBJECT is passed where its id is expected: refused without a trace, or - should the library
+            # take it for its id - exactly what removal by id does (the agent leaves AND loses its position)
+            try:
+                w.env.remove_agent(a)
+            except Exception:      # noqa
+                if self._read(w, k) != before or w.env.get_agent(k) is not a:
+                    raise Violation(f'remove_agent(<agent object {k}>) was refused but left a trace',
+                                    expected=before, observed=self._read(w, k))
+                w.last = (kind, False, None)
+            else:
+                gone, bare = w.env.get_agent(k) is None, PC not in a
+                if gone != bare:
+                    raise Violation(f'remove_agent(<agent object {k}>): agent {"left" if gone else "stayed in"} the '
+                                    f'world but {"lost" if bare else "kept"} its position', observed=self._read(w, k))
+                if gone:
+                    w.pos[k] = None
+                elif self._read(w, k) != before:
+                    raise Violation(f'remove_agent(<agent object {k}>) kept the agent but moved it')
+                w.last = (kind, True, gone)
         elif kind == 'remove':
             w.env.remove_agent(k)
             w.pos[k] = None
@@ -387,7 +408,10 @@ def replaced_world_case(case):
     first.move(a0, -1, 0, 0)
     kind, dims = case['second']
     second = mk_world(model, kind, dims, case['wrap'])
-    model.set_environment(second)
+    if case.get('install', True):
+        model.set_environment(second)
+    # else: the second world is used side by side with the installed one (a model with two spatial layers); a world's
+    # moves are governed by its own extents whether or not it is the model's installed environment
     h = Harness(kind, dims, case['wrap'])
     w = World()
     w.model, w.env = model, second
@@ -434,14 +458,16 @@ def run(ctx):
              (('grid', [2, 2]), ('discrete', [3, 1, 2])), (('discrete', [3, 3, 3]), ('line', [2]))]
     for fst, snd in pairs:
         for wrap in (False, True):
-            case = {'leg': 'replaced_world', 'first': list(fst), 'second': list(snd), 'wrap': wrap}
-            ctx.traces += 1
-            try:
-                ctx.transitions += hbfs._guard(replaced_world_case, case)
-            except Violation as v:
-                ctx.report(case, v)
-                return
-    ctx.leg('replaced_world', cases=2 * len(pairs))
+            for install in (True, False):
+                case = {'leg': 'replaced_world', 'first': list(fst), 'second': list(snd), 'wrap': wrap,
+                        'install': install}
+                ctx.traces += 1
+                try:
+                    ctx.transitions += hbfs._guard(replaced_world_case, case)
+                except Violation as v:
+                    ctx.report(case, v)
+                    return
+    ctx.leg('replaced_world', cases=4 * len(pairs), note='second world installed in place of the first / used side by side')
     # biggest first for load balance
     items.sort(key=lambda it: -(len(it[0][3]) * 10 ** 6 + max(1, it[0][1][0]) * max(1, (it[0][1] + [1, 1])[1]) *
                                 max(1, (it[0][1] + [1, 1])[2])))
